@@ -65,7 +65,7 @@ def gen_case(rng, kind='fast_SIS', nmax=7, malformed=False):
         case['i0'] = sel
         case['i0_form'] = rng.choice(['list', 'tuple', 'set', 'single'] if k == 1 else ['list', 'tuple', 'set', 'dictkeys'])
         if case['i0_form'] == 'set':
-            case['i0'] = list(set(sel))                               # the iteration order the code will see
+            case['i0_set'] = set(sel); case['i0'] = list(case['i0_set'])   # the iteration order the code will see
     if kind == 'fast_SIS':
         case['tau'] = R.dyadic(rng); case['gamma'] = R.dyadic(rng)
     else:
@@ -112,7 +112,12 @@ def shape_i0(case):
     f = case['i0_form']
     if f == 'single': return i0[0]
     if f == 'tuple': return tuple(i0)
-    if f == 'set': return set(i0)
+    if f == 'set':
+        obj = case.get('i0_set')
+        if obj is None:
+            obj = set(i0)
+            if list(obj) != list(i0): return list(i0)              # replay: keep the recorded order
+        return obj
     if f == 'dictkeys': return {u: 1 for u in i0}.keys()
     return list(i0)
 
@@ -169,6 +174,16 @@ def run_impl(EoN, sim, case, draws, full=None):
     return out
 
 
+def merge_rows(rows):
+    """Simulation_Investigation.summary() reports one row per DISTINCT time (the last state
+    reached at that time); the plain arrays have one row per event"""
+    out = []
+    for t, c in rows:
+        if out and out[-1][0] == t: out[-1] = (t, c)
+        else: out.append((t, c))
+    return out
+
+
 def compare(case, m, impl):
     """None when model and implementation agree on trace and outputs"""
     if m['status'] == 'DRIVERFAIL':
@@ -185,7 +200,7 @@ def compare(case, m, impl):
         return 'model returns, implementation %s %s' % (impl['status'], impl.get('err', ''))
     if isinstance(impl['rows'], str):
         return 'implementation arrays: ' + impl['rows']
-    d = R.rows_equal(impl['rows'], m['rows'])
+    d = R.rows_equal(impl['rows'], merge_rows(m['rows']) if 'hist' in m else m['rows'])
     if d: return d
     if 'hist' in m:
         if 'hist' not in impl: return 'model has full data, implementation has not'
@@ -311,7 +326,7 @@ def oracle_ref(case, impl, m=None):
     rows, hist = expected_outputs(case, ref['events'], len(i0))
     if isinstance(impl['rows'], str):
         bad.append(('rows', 'arrays: ' + impl['rows'])); return bad
-    d = R.rows_equal(impl['rows'], rows)
+    d = R.rows_equal(impl['rows'], merge_rows(rows) if 'hist' in impl else rows)
     if d: bad.append(('rows', 'returned arrays differ from the reference agenda semantics: ' + d))
     if 'hist' in impl:
         d = R.hist_equal(impl['hist'], hist)
@@ -429,7 +444,7 @@ def oracle_clock(case, impl, m=None):
     if len(i0) == nd:
         if isinstance(impl['rows'], str):
             bad.append(('rows', 'arrays: ' + impl['rows'])); return bad
-        d = R.rows_equal(impl['rows'], rows)
+        d = R.rows_equal(impl['rows'], merge_rows(rows) if 'hist' in impl else rows)
         if d: bad.append(('rows', 'returned arrays differ from the replayed clock construction: ' + d))
         if 'hist' in impl:
             d = R.hist_equal(impl['hist'], hist) or R.trans_equal(impl['trans'], trans)
